@@ -16,7 +16,8 @@ HOOK_COMMITS = ["3a4e866"]
 CHECKS["C01"] = {
     "level": "exploration",
     "claim": ("Generated-input search: rapid-generated envelopes of all kinds and exhaustive small-alphabet text forms, judged by an independent "
-              "canonical form (wire-shape predicate + normalised equality) through the typed decoders and the real TCP receive path."),
+              "canonical form (wire-shape predicate + normalised equality) through the typed decoders and the real TCP receive path (one long-lived connection; before every other envelope a refused "
+              "relative of the previous one - all of its members plus an unknown event - goes through the same connection and must be answered with an error without touching what follows)."),
     "note": "Trusts encoding/json, the harness's canonical form (norm.go) and the in-memory net.Conn; values are sampled (text forms exhaustive up to the stated length).",
     "technique": "property-based testing (rapid): round-trip + independent wire-shape oracle; exhaustive small-scope enumeration of text forms",
     "rule": ("rapid-generated envelope specs of all 5 kinds (optional fields drawn independently, recursive documents of every "
@@ -39,7 +40,8 @@ CHECKS["C01"] = {
 CHECKS["C11"] = {
     "level": "exploration",
     "claim": ("Generated requests/messages x all reply builders, compared with the reply computed from the property statement and round-tripped "
-              "over the wire; ping auto-reply exercised end to end on both roles over loopback TCP."),
+              "over the wire; ping auto-reply exercised end to end on both roles over loopback TCP, for every combination of from/pp and destinations relative to the answering endpoint (none, its complete "
+              "address, its identity only, its identity with another instance, somebody else)."),
     "note": "Trusts the canonical form and encoding/json; ping cases use real loopback sockets with a 2 s response bound per request.",
     "technique": "property-based testing (rapid): independent field oracle + wire round-trip; enumerated end-to-end ping cases",
     "rule": ("rapid-generated request commands / messages (from/pp/to in all 8 combinations, all methods, resources of every document "
@@ -95,7 +97,8 @@ CHECKS["C07"] = {
     "claim": ("Every client script up to a depth bound over a ~35-symbol alphabet (all session states, id variants, option choices incl. a real TLS "
               "upgrade, schemes, credential classes, non-session and undecodable inputs) for 6 representative server configurations, plus "
               "rapid-generated configurations/scripts, replayed against the implementation and compared with an executable reference model of "
-              "the server handshake (order grammar, single id, sender, monotone state, failed+reason+close on client violations)."),
+              "the server handshake (order grammar, single id, sender, monotone state, failed+reason+close on client violations). Also over the in-process transport (library envelope values instead of bytes), "
+              "and with cleartext envelopes glued to the choice of tls in one write (the model discards them)."),
     "note": "The reference model (srvscript.go RunServerModel) is written from README/property text; configurations are sampled from a lattice; depth-bounded.",
     "technique": "model-based testing: exhaustive depth-bounded script enumeration with model-guided pruning + rapid (stateful generation) in virtual time",
     "rule": ("case = (server configuration, client script, how the peer ends). Enumeration: all scripts to depth 4 (quick) / 5 (thorough), not extended past "
@@ -116,7 +119,8 @@ CHECKS["C03"] = {
     "claim": ("Same script space as C07; oracle is an invariant over the observed history, independent of the model: whenever the server side treats a session as "
               "established (channel state, established envelope, or the Server's Established callback) the callback log must show Authenticate for exactly the "
               "identity/scheme/credentials the peer presented last, under an offered scheme, returning a known role, followed by Register for the peer's node, "
-              "and the established envelope / RemoteNode must announce exactly the registered node."),
+              "and the established envelope / RemoteNode must announce exactly the registered node. Scripts run over TCP (in-memory connections), TCP+TLS and the in-process transport, against a bare "
+              "ServerChannel, a Server and a ServerBuilder-built server, with peers that stay, half-close, reset, or vanish right after their last envelope."),
     "note": "History invariant over callback log + envelopes seen by the scripted peer + exported channel state; scripts/configurations sampled and depth-bounded.",
     "technique": "property-based testing (rapid) + exhaustive depth-bounded script enumeration against a history invariant, in virtual time",
     "rule": ("cases as in C07 (direct and Server modes; enumeration depth 5/6 direct, 4/5 under Server), plus the ServerBuilder entry point over the in-process transport (drawn sets of enabled schemes x 1-3 "
@@ -137,7 +141,8 @@ CHECKS["C14"] = {
     "level": "fault_enumeration",
     "claim": ("Every failing script of the handshake model (each rejection branch), authentication/registration callback errors, garbage, non-session input, failed TLS "
               "upgrade and the peer vanishing or staying connected, against a real Server: the server end of the connection must be closed, no goroutine may still serve "
-              "it after the release bound, neither Established nor Finished may fire, and a refused client must see the end of its connection."),
+              "it after the release bound, neither Established nor Finished may fire, and a refused client must see the end of its connection. Over TCP, TCP+TLS and the in-process transport; "
+              "peers that half-close, stay, stay silent past the deadline, reset, or vanish right after their last envelope."),
     "note": "Server runs over the real TCP transport on in-memory connections (closure observed exactly on the server end); serving goroutines found by stack census.",
     "technique": "fault enumeration over model-classified failing scripts (exhaustive to a depth bound) + rapid, in virtual time",
     "rule": ("cases as in C07 under a real Server, each with the peer ending by EOF (vanishing) or staying connected (wait), rapid adds silence. Judged only when the model "
@@ -179,7 +184,7 @@ CHECKS["C08"] = {
               "confirmations incl. a real TLS upgrade, scheme lists, round-trip data of every type, non-session envelopes, undecodable bytes, disconnect/silence) against "
               "ClientChannel.EstablishSession for 4 client configurations, plus rapid-generated scripts/configurations: no panic (also not on the receiver goroutine: a process "
               "crash is attributed to the journalled case), established only if the server's last word was established with id/nodes adopted from it, id echo, credentials only "
-              "in answer to an authentication request, connection closed after finished/failed."),
+              "in answer to an authentication request, connection closed after finished/failed - at whatever point of the handshake the terminal envelope comes and whether or not EstablishSession then returns an error (server staying connected)."),
     "note": "Symbols are sent only while the client is provably waiting (synctest.Wait), so 'last word' is exact; clauses are exactly those of the statement.",
     "technique": "exhaustive depth-bounded script enumeration with dynamic pruning + rapid (stateful generation) against invariants over the observed history, in virtual time",
     "rule": ("case = (selectors, authenticator, client TLS config, server script, end). Enumeration depth 3 (quick) / 4 (thorough), a script is only extended while the client still consumes "
@@ -200,7 +205,8 @@ CHECKS["C09"] = {
               "every selector, (c) the library client against a scripted server whose confirmation differs from the client's choice, and (d) every sequence of up to three connections over listeners of different "
               "capability (in-process, TLS-capable TCP) on one Server for every order of the configured lists: the offer equals configured ∩ supported, only an offered pair is confirmed (echoing the choice), anything else is answered with failed; after a confirmed "
               "tls every later byte in both directions is a TLS record, credentials never appear in cleartext, both callbacks (client authenticator, server Authenticate) run under the "
-              "confirmed options, and both ends report the same options after establishment."),
+              "confirmed options, and both ends report the same options after establishment. (e) a pipelining peer: every authenticating symbol written in cleartext in the same write as the choice of tls, alone "
+              "and followed by each authenticating symbol sent under TLS: credentials that never travelled under TLS must not reach Authenticate."),
     "note": "Real crypto/tls over the in-memory connection; wire observations come from the raw byte capture of both directions. WebSocket transports are not part of this check.",
     "technique": "exhaustive enumeration of configurations x client behaviours + rapid scripts, with invariants over captured wire bytes and callback-time transport state, in virtual time",
     "rule": ("scripts: 2 transports x 3 compression lists x 4 encryption lists x 2 entry points x scripts to depth 3/4; pairs: the same 24 configurations x 4 encryption selectors x 2 compression "
@@ -222,7 +228,8 @@ CHECKS["C06"] = {
     "claim": ("Both roles are parked at every stage of handshake and teardown by controlled means (the scripted peer withholds its reply and synctest.Wait confirms the library side is blocked; "
               "the library's own callbacks serve as in-stage hook points), and every send operation is attempted there: outside established each returns an error and the byte capture of that "
               "side shows nothing but session envelopes; in established they succeed and the peer sees exactly those envelopes. Receive direction: each data kind is injected at every position "
-              "of the handshake on both roles: no handler invocation, nothing on inbound streams, and the handshake never ends established."),
+              "of the handshake on both roles: no handler invocation, nothing on inbound streams, and the handshake never ends established. Server role also: while FinishSession / FailSession is still "
+              "in progress (terminal envelope on the wire, the call waiting for its receiver on TCP) a send from another goroutine must fail and emit nothing."),
     "note": "Stage x role x operation is enumerated completely; the 'finishing' stage and the instant between the server's state change and its established envelope are deliberately not asserted (DESIGN.md).",
     "technique": "exhaustive enumeration of (role, stage, operation) and of injection positions, plus rapid orderings, against wire-capture and return-value oracles, in virtual time",
     "rule": ("stages: server {new, negotiating, authenticating, inside Authenticate, inside Register, established, finished, failed during handshake, failed after established, peer closed}; client "
@@ -252,7 +259,8 @@ CHECKS["C12"] = {
               "every pair of split points of a small stream, byte-at-a-time and fixed-size chunking, coalescing, transient read timeouts and stalls, every short-write length followed by a "
               "transient timeout, zero-length timeouts, cuts at every offset, resets; random plans on larger streams (up to 20 envelopes of up to 64 KiB, back-pressure with tiny pipes); "
               "with TLS: fragmentation of the raw stream, stalls and cuts. Oracle: what is received is a duplicate-free, in-order sub-sequence of what was attempted, each element equal to "
-              "the one sent; every envelope whose Send returned nil before the first failed Send arrives when nothing was cut; a cut in the middle of a write makes a Send fail."),
+              "the one sent; every envelope whose Send returned nil arrives when nothing was cut (also one reported sent after an earlier Send failed); a cut in the middle of a write makes a Send fail. "
+              "Sends may be given up on their context (cancelled or timed out, per envelope) while the receiver stalls for seconds behind a pipe smaller than a frame."),
     "note": "Short writes / write timeouts are not injected under TLS (crypto/tls makes any write error permanent, so no retry semantics apply there).",
     "technique": "fault enumeration (exhaustive split points / short-write lengths / cut offsets for small streams) + rapid fault plans, sent-vs-received sequence oracle, in virtual time",
     "rule": ("case = (stream, write fault plan on the sender's connection, read fault plan on the receiver's, global read chunk, coalescing, pipe capacity, TLS). Non-trivial: a fault fired or a frame "
@@ -271,7 +279,8 @@ CHECKS["C16"] = {
     "claim": ("Read limits x frame sizes at the boundaries (<<L, L/2, L-1, L, L+1, 1.5L, 2L-1, 2L, 2L+1, 3L, 10L) x stream position (single frame, every ordered pair of boundary sizes, a run of "
               "in-limit frames followed by each boundary size) x fragmentation (coalesced, concurrent writer with a 4 KiB pipe, read chunks of 1, 7, L-1, L, L+1 bytes), plus rapid streams of up to 12 "
               "frames; the limit is set through the hook constructor and through the real loopback TCP listener (propagation). Oracle per Receive: bytes taken from the connection during the call "
-              "<= L; a frame > 2L is never returned; a frame <= L whose predecessors were accepted is returned intact. Frames in (L, 2L] may go either way."),
+              "<= L; a frame > 2L is never returned; a frame <= L whose predecessors were accepted is returned intact. Frames in (L, 2L] may go either way. Refused frames (well-formed JSON that is no "
+              "valid envelope: an unknown event, or members that add up to no kind) of every size up to L are interleaved: each must be answered with an error and costs later frames nothing."),
     "note": "The unit is the frame (JSON text plus the encoder's newline). Bytes consumed are counted on the in-memory connection; not measured for the loopback listener cases.",
     "technique": "boundary-value enumeration + rapid streams with a per-call consumption counter on the injected connection",
     "rule": ("case = (limit, frame sizes, read chunk, coalesced?, via hook|listener). Non-trivial: a frame > L occurs, or >=2 coalesced frames. Distinct by SHA-1 of the case. Default 8 MiB limit only in the thorough tier."),
@@ -387,7 +396,7 @@ CHECKS["C13"] = {
               "real time) x channel / transport buffers 0/1/8 x wiring (bare ClientChannel or the high-level Client against a real Server): the peer reaches the matching terminal state, RcvDone and the "
               "four inbound streams of both sides are closed and every consumer returns within the bound (1 s; 5 s on TCP), the initiator's transport is disconnected when the terminating call returns, "
               "Established/Finished callbacks pair up, and after the observing side closed its channel no session goroutine (receiver, dispatch loop, serving goroutine, client listener) and no connection "
-              "end is left."),
+              "end is left. Client.Close also with the server's dispatch loop stuck in a handler (finishing not answered): every connection the Client dialled must be released when Close returns."),
     "note": "Schedules are sampled; the terminating call's own return value is not judged (under TLS it can report a close_notify write error after a clean finish). Server-side transports are only visible on in-memory connections.",
     "technique": "property-based testing (rapid) over (initiator, moment, transport, buffers, wiring) with state / stream-closure / goroutine-census oracles; virtual time plus real sockets",
     "rule": "case = (transport, wiring, initiator, buffers, traffic counts, termination moment). Non-trivial: termination with traffic still to be sent, or initiated by the server side, or buffer 0. Distinct by SHA-1 of the case.",
